@@ -74,9 +74,18 @@ RULE = (
     'middle of three handles; Read Blob at the last byte, at offset == length, and on a value that is not long; Write '
     'Request / Command with a zero-length value; Prepare Write + Execute Write; Signed Write Command}. Programs draw '
     'a quarter of their states and paths from these. In a third of the worlds the mask is put on the target through '
-    'Attribute.Permissions.from_string() of the flag names (comma or | separated) instead of Permissions(mask).'
+    'Attribute.Permissions.from_string() of the flag names (comma or | separated) instead of Permissions(mask). '
+    'paired (Hypothesis): two Bumble devices; the security state is REACHED, not installed: Just Works / passkey / '
+    'numeric-comparison pairing (legacy or SC, GATT server on either end, HCI delays), reads and writes of '
+    'authentication- and encryption-protected characteristics before the pairing, at generated moments during it, '
+    'after it, on the next connection before and after encrypting with the stored key, and after pairing again with '
+    'the same or a weaker method.'
 )
 ASSUMPTIONS = [
+    'family paired: "the link meets an authentication requirement" is read as in Core Vol 3 Part C 10.3: the link '
+    'is encrypted with a key from a MITM-protected pairing (passkey entry, numeric comparison, OOB); a link '
+    'encrypted by Just Works pairing, or later with the stored key of a Just Works bond, meets encryption '
+    'requirements only. Only disclosure/change is judged (the statement says "only if"); grants are counted',
     'link security is set on the documented attributes Connection.encryption / Connection.authenticated '
     'of the victim (what Device.on_connection_encryption_change / on_pairing assign); how a pairing '
     'arrives at them is property C13',
@@ -1281,6 +1290,251 @@ def report(ctx, sig, what, params, cell, steps, confirm) -> None:
              {'kind': 'program', 'world': _non_default(params), 'cells': steps[: k + 1]})
 
 
+# ---------------------------------------------------------------------------
+# family 'paired': the link security state is not installed by the harness but REACHED the way a peer reaches it -
+# by pairing (Just Works / passkey entry / numeric comparison, legacy or Secure Connections), and by coming back
+# later and encrypting the link with the stored key.
+PAIRED_METHODS = ('just_works', 'passkey', 'numeric')
+PAIRED_SECRETS = {'r_authn': b'AUTHN-ONLY-SECRET', 'r_enc': b'ENC-ONLY-SECRET', 'open': b'open value'}
+
+
+def paired_strategy():
+    return st.fixed_dictionaries(
+        {
+            'kind': st.just('paired'),
+            'method': st.sampled_from(PAIRED_METHODS),
+            'sc': st.booleans(),  # (numeric comparison exists with Secure Connections only: forced below)
+            'server': st.sampled_from(['peripheral', 'central']),  # which end is the GATT server (the victim)
+            'delays': st.lists(st.sampled_from([0, 0, 2, 9]), max_size=3),
+            # virtual seconds after pair() started at which the client probes the protected attributes (the window
+            # between "encryption on" and "pairing complete")
+            'probe_at': st.lists(st.sampled_from([0.0, 0.001, 0.003, 0.01, 0.03, 0.1]), max_size=3),
+            # what happens after the first pairing: come back and encrypt with the stored key / pair again on the
+            # new connection (possibly with another method)
+            'later': st.lists(st.sampled_from(['reconnect', 'reconnect', 'repair_just_works', 'repair_same']), max_size=3),
+        }
+    ).map(lambda c: dict(c, sc=True) if c['method'] == 'numeric' else c)
+
+
+class _PairedDelegate:
+    pass
+
+
+def _paired_delegate(method, side, shared):
+    from bumble.pairing import PairingDelegate
+
+    io = {
+        'just_works': PairingDelegate.IoCapability.NO_OUTPUT_NO_INPUT,
+        'numeric': PairingDelegate.IoCapability.DISPLAY_OUTPUT_AND_YES_NO_INPUT,
+        'passkey': (PairingDelegate.IoCapability.KEYBOARD_INPUT_ONLY if side == 'c'
+                    else PairingDelegate.IoCapability.DISPLAY_OUTPUT_ONLY),
+    }[method]
+
+    class D(PairingDelegate):
+        async def compare_numbers(self, number, digits):
+            shared['asked'].add('compare')
+            return True
+
+        async def get_number(self):
+            shared['asked'].add('input')
+            return await shared['displayed']
+
+        async def display_number(self, number, digits):
+            shared['asked'].add('display')
+            if not shared['displayed'].done():
+                shared['displayed'].set_result(number)
+
+    return D(io)
+
+
+def run_paired(ctx, case) -> None:
+    from bumble.gatt import Characteristic, Service
+    from bumble.keys import MemoryKeyStore
+    from bumble.pairing import PairingConfig
+    from bumble.device import Peer
+    from bumble import att as _att
+    from checks.c13_pairing import LtkEmulation, add_encryption_hold
+
+    loop = vloop.new_loop()
+    labels = {'paired', f'paired_first:{case["method"]}', 'paired_sc' if case['sc'] else 'paired_legacy',
+              f'paired_server_is_{case["server"]}'}
+    failures = []
+
+    async def body():
+        w = world.World(2, delays=case.get('delays') or None)
+        for n in w.nodes:
+            add_encryption_hold(n.tap)
+        await w.power_on()
+        ci, pi = 0, 1
+        si = pi if case['server'] == 'peripheral' else ci
+        server, client = w[si].device, w[1 - si].device
+        P = Characteristic
+        chars = {
+            'r_authn': Characteristic('A001', P.Properties.READ, P.READABLE | P.READ_REQUIRES_AUTHENTICATION,
+                                      PAIRED_SECRETS['r_authn']),
+            'r_enc': Characteristic('A002', P.Properties.READ, P.READABLE | P.READ_REQUIRES_ENCRYPTION,
+                                    PAIRED_SECRETS['r_enc']),
+            'w_authn': Characteristic('A003', P.Properties.READ | P.Properties.WRITE,
+                                      P.READABLE | P.WRITEABLE | P.WRITE_REQUIRES_AUTHENTICATION, b'w-authn-0'),
+            'w_enc': Characteristic('A004', P.Properties.READ | P.Properties.WRITE,
+                                    P.READABLE | P.WRITEABLE | P.WRITE_REQUIRES_ENCRYPTION, b'w-enc-0'),
+            'open': Characteristic('A005', P.Properties.READ, P.READABLE, PAIRED_SECRETS['open']),
+        }
+        server.add_service(Service('A000', list(chars.values())))
+        for n in w.nodes:
+            n.device.keystore = MemoryKeyStore()
+        state = {'method': case['method']}
+
+        def factory_for(side):
+            def factory(connection):
+                # (identity address = the static random address the devices connect with, so that the bond is found
+                # again on the next connection without address resolution)
+                return PairingConfig(sc=case['sc'], mitm=state['method'] != 'just_works', bonding=True,
+                                     identity_address_type=PairingConfig.AddressType.RANDOM,
+                                     delegate=_paired_delegate(state['method'], side, state['shared']))
+            return factory
+
+        w[ci].device.pairing_config_factory = factory_for('c')
+        w[pi].device.pairing_config_factory = factory_for('p')
+        counter = [0]
+
+        async def probe(conn_client, authn_ok, enc_ok, when):
+            """Reads/writes every protected attribute from the client end and judges what came back."""
+            peer_client = conn_client.gatt_client
+            for name in ('r_authn', 'r_enc'):
+                try:
+                    v = await asyncio.wait_for(peer_client.read_value(chars[name].handle), 40.0)
+                except (_att.ATT_Error, asyncio.TimeoutError, TimeoutError, asyncio.CancelledError):
+                    v = None
+                except Exception:
+                    v = None
+                allowed = authn_ok if name == 'r_authn' else enc_ok
+                if v is not None and allowed:
+                    labels.add(f'paired_granted:{name}:{when}')
+                if v is not None and bytes(v) == PAIRED_SECRETS[name] and allowed is False:
+                    failures.append((f'paired/disclosed/{name}/{when}',
+                                     f'{name} value returned to the peer {when}: the link was {state["desc"]}'))
+            for name in ('w_authn', 'w_enc'):
+                counter[0] += 1
+                new = b'by-peer-%d' % counter[0]
+                before = bytes(chars[name].value)
+                try:
+                    await asyncio.wait_for(peer_client.write_value(chars[name].handle, new, with_response=True), 40.0)
+                except (_att.ATT_Error, asyncio.TimeoutError, TimeoutError, asyncio.CancelledError):
+                    pass
+                except Exception:
+                    pass
+                allowed = authn_ok if name == 'w_authn' else enc_ok
+                after = bytes(chars[name].value)
+                if after != before and allowed is False:
+                    failures.append((f'paired/changed/{name}/{when}',
+                                     f'{name} changed by the peer {when}: the link was {state["desc"]}'))
+
+        async def connect():
+            cc, cp = await w.connect_le(ci, pi)
+            return cc, cp
+
+        async def pair(cc, probes):
+            state['shared'] = {'displayed': asyncio.get_running_loop().create_future(), 'asked': set()}
+            mitm = state['method'] != 'just_works'
+            client_conn = cc if si == pi else cp_holder[0]
+            tasks = []
+            state['desc'] = ('in the middle of a %s pairing (%s)' % (state['method'], 'SC' if case['sc'] else 'legacy'))
+
+            async def late_probe(delay):
+                await asyncio.sleep(delay)
+                # during the pairing nothing is known yet: an authenticated requirement may only be met once a
+                # MITM-protected pairing has COMPLETED; encryption may come on at any moment (not judged: None)
+                await probe(client_conn, False if not mitm else None, None, 'while_pairing')
+
+            for d in probes:
+                tasks.append(asyncio.get_running_loop().create_task(late_probe(d)))
+            try:
+                await asyncio.wait_for(cc.pair(), 60.0)
+                ok = True
+            except Exception as e:  # noqa: BLE001
+                state['pair_error'] = repr(e)
+                ok = False
+            for t in tasks:
+                try:
+                    await t
+                except Exception:
+                    pass
+            await world.settle()
+            return ok
+
+        cp_holder = [None]
+        cc, cp = await connect()
+        cp_holder[0] = cp
+        client_conn = cc if si == pi else cp
+        state['desc'] = 'neither encrypted nor paired'
+        await probe(client_conn, False, False, 'before_pairing')
+        ok = await pair(cc, case.get('probe_at') or [])
+        if not ok:
+            labels.add('paired_pairing_failed')
+            labels.add('paired_pairing_failed:' + state.get('pair_error', '')[:60])
+            return
+        if case.get('probe_at'):
+            labels.add('paired_probe_while_pairing')
+        key_authn = state['method'] != 'just_works'
+        state['desc'] = f'encrypted by a completed {state["method"]} pairing'
+        await probe(client_conn, key_authn, True, 'after_pairing')
+        for step in case.get('later') or []:
+            try:
+                await asyncio.wait_for(cc.disconnect(), 30.0)
+            except Exception:
+                pass
+            await world.settle()
+            cc, cp = await connect()
+            cp_holder[0] = cp
+            client_conn = cc if si == pi else cp
+            state['desc'] = 'a new, not yet encrypted connection of a bonded peer'
+            await probe(client_conn, False, False, 'after_reconnect_plain')
+            if step == 'reconnect':
+                # (the virtual controller starts encryption without asking the peripheral's host for the key; the
+                # emulation sends the LE Long Term Key Request a real controller sends, through the peripheral's tap)
+                emu = LtkEmulation(w[ci], w[pi], cp.handle)
+                try:
+                    await asyncio.wait_for(cc.encrypt(), 30.0)
+                except Exception:
+                    labels.add('paired_encrypt_failed')
+                    return
+                finally:
+                    await world.settle()
+                    emu.detach()
+                if emu.verdict() is not None:
+                    labels.add('paired_encrypt_failed')
+                    return
+                labels.add('paired_reconnect_encrypt:' + ('authenticated_key' if key_authn else 'unauthenticated_key'))
+                state['desc'] = ('encrypted with the stored key of a %s pairing'
+                                 % ('MITM-protected' if key_authn else 'Just Works'))
+                await probe(client_conn, key_authn, True, 'after_reconnect_encrypted')
+            else:
+                previous = state['method']
+                if step == 'repair_just_works':
+                    state['method'] = 'just_works'
+                ok = await pair(cc, [])
+                if not ok:
+                    labels.add('paired_pairing_failed')
+                    return
+                key_authn = state['method'] != 'just_works'
+                labels.add(f'paired_again:{previous}->{state["method"]}')
+                state['desc'] = f'encrypted by a completed {state["method"]} pairing (the bond before it was {previous})'
+                await probe(client_conn, key_authn, True, 'after_pairing_again')
+
+    try:
+        try:
+            loop.complete(body(), horizon=1200.0)
+        except (vloop.Stalled, vloop.HorizonExceeded, vloop.BudgetExceeded) as e:
+            raise HarnessError(f'C11: paired case did not finish ({type(e).__name__}): {case}')
+    finally:
+        loop.shutdown()
+    plain = {k: (list(v) if isinstance(v, (list, tuple)) else v) for k, v in case.items()}
+    for sig, what in failures:
+        ctx.fail(sig, what, plain)
+    ctx.case(['paired', plain], True, labels, sample={'paired': plain})
+
+
 def downgrade_programs(ctx):
     """Directed histories: an access that the rule GRANTS on a link that meets the requirement, followed by an access
     to the same attribute on the same bearer after the link security went down (what a reconnection, or an
@@ -1364,6 +1618,14 @@ def run(ctx) -> None:
     ctx.extra['sum_form_cells_run'] = len(fcells)
     ctx.extra['form_cells_total'] = ftotal
 
+    # link security reached by real pairing / by encrypting a later connection with the stored key
+    ctx.hyp('paired', lambda c: run_paired(ctx, c), paired_strategy(), max_examples=ctx.n(120, 6400))
+    for label in ('paired_reconnect_encrypt:unauthenticated_key', 'paired_reconnect_encrypt:authenticated_key',
+                  'paired_probe_while_pairing', 'paired_first:passkey', 'paired_first:numeric', 'paired_legacy',
+                  'paired_sc', 'paired_server_is_central', 'paired_again:passkey->just_works',
+                  'paired_granted:r_authn:after_pairing', 'paired_granted:r_authn:after_reconnect_encrypted'):
+        ctx.floor(label, 2)
+
     # security-downgrade histories (granted access, then the same attribute on a link that no longer qualifies)
     todo = list(downgrade_programs(ctx))
     ctx.extra['sum_downgrade_programs'] = len(todo)
@@ -1416,6 +1678,9 @@ def run(ctx) -> None:
 
 
 def replay(ctx, case) -> None:
+    if case.get('kind') == 'paired':
+        run_paired(ctx, case)
+        return
     if case.get('kind') != 'program':
         raise ValueError(case.get('kind'))
     run_program(ctx, case['world'], case['cells'], confirm=False)
